@@ -81,10 +81,10 @@ func fwdServer() *fwdUp {
 		switch {
 		case strings.HasPrefix(u.decl, "S") && sent != nil:
 			_, a := normAddr(sent.Address)
-			d = &optT{isECS: true, fam: sent.Family, mask: sent.SourceNetmask, scope: uint8(vlib.Atoi(u.decl[1:])), addr: a}
+			d = &optT{isECS: true, fam: sent.Family, mask: sent.SourceNetmask, scope: declBits(u.decl, sent.Family), addr: a}
 		case strings.HasPrefix(u.decl, "T") && sent != nil:
 			_, a := normAddr(sent.Address)
-			b := uint8(vlib.Atoi(u.decl[1:]))
+			b := declBits(u.decl, sent.Family)
 			d = &optT{isECS: true, fam: sent.Family, mask: b, scope: b, addr: a}
 		case strings.HasPrefix(u.decl, "E"):
 			x := parseOpt(u.decl)
@@ -235,4 +235,15 @@ func normSeenOpts(os []dns.EDNS0) []dns.EDNS0 {
 		out = append(out, o)
 	}
 	return out
+}
+
+// declBits: the <bits> of an S/T declaration, kept within the family the authority was
+// sent (a scope beyond the family would make the response undecodable for sdns).
+func declBits(decl string, family uint16) uint8 {
+	b := vlib.Atoi(decl[1:])
+	w := 128
+	if family == 1 {
+		w = 32
+	}
+	return uint8(min(b, w))
 }
